@@ -19,7 +19,7 @@ from t10 import sense as S
 
 ID = "C11"
 LEVEL = "exploration"
-COUNTS = {"quick": 6000, "thorough": 1000000}
+COUNTS = {"quick": 6000, "thorough": 300000}
 ENUMERATED_NOTE = "sense sweep under the step meter: 256 ASC x 256 ASCQ for fixed format (quick) and for all four formats (thorough)"
 RULE = ("seeded runs of 1-6 data-in facade calls (every data-in command, every PERSISTENT RESERVE IN service action, every VPD page, "
         "mode pages, READ CD layouts, READ ELEMENT STATUS with and without volume tags; random allocation lengths incl. 0) against a "
